@@ -35,11 +35,14 @@ import (
 const (
 	baseDelay = 20 * time.Millisecond
 	maxDelay  = 40 * time.Millisecond
+	// healthy mode: receive timeout and how long a healthy stream keeps sending
+	healthyTimeout = 300 * time.Millisecond
+	healthyFor     = 450 * time.Millisecond
 )
 
 type session struct {
 	Msgs    []byte // 'u' update, 's' sync
-	Outcome string // error, eof, block
+	Outcome string // error, eof, block, healthy-error, healthy-eof
 	// driver action for this session
 	Action   string // none, reconnect, remove, remove-in-backoff
 	ActionAt int    // message index at which the action is taken
@@ -75,6 +78,19 @@ type targetState struct {
 	violSig     []string
 	ended       map[int]bool
 	resetFor    int // number of resets observed
+	// healthy mode: streams on which the target keeps sending well inside the
+	// receive timeout until it ends the stream itself
+	healthy    map[int64]*hsess
+	driverActs int           // Reconnect/Remove calls issued by the driver so far
+	lastEvAt   time.Time     // time of the previous event
+	maxOpenGap time.Duration // longest gap between consecutive events while a stream was open
+	judgeGap   time.Duration // a cut is judged only when maxOpenGap stayed below this (0: never judged)
+}
+
+type hsess struct {
+	idx        int
+	finishing  bool // the target is about to end the stream itself
+	actsAtOpen int
 }
 
 type env struct {
@@ -95,6 +111,12 @@ func (e *env) record(ts *targetState, kind string, payload int64) {
 		ts.violSig = append(ts.violSig, sig)
 	}
 	e.r.Count("event_"+kind, 1)
+	if ts.state != "idle" && !ts.lastEvAt.IsZero() {
+		if gap := ev.At.Sub(ts.lastEvAt); gap > ts.maxOpenGap {
+			ts.maxOpenGap = gap
+		}
+	}
+	ts.lastEvAt = ev.At
 	if ts.removed && kind != "add" {
 		bad("callback-after-remove", "event for a target whose Remove had already returned")
 	}
@@ -144,6 +166,19 @@ func (e *env) record(ts *targetState, kind string, payload int64) {
 	case "reset":
 		if ts.state == "idle" {
 			bad("reset-without-stream", "Reset although no stream was open (second Reset for one stream, or none)")
+		} else if h := ts.healthy[ts.curSid]; h != nil && ts.judgeGap > 0 {
+			// A stream on which the target never stayed silent: it may end only
+			// because the target ended it or because the driver asked for it.
+			switch {
+			case h.actsAtOpen != ts.driverActs:
+				e.r.Count("healthy_sessions_ended_by_driver", 1)
+			case ts.maxOpenGap >= ts.judgeGap:
+				e.r.Count("healthy_sessions_unjudged_gap_seen", 1)
+			case h.finishing:
+				e.r.Count("healthy_sessions_judged_ran_to_their_end", 1)
+			default:
+				bad("session-ended-without-cause", fmt.Sprintf("the stream of scripted session %d was torn down (Reset after %d deliveries) although the target was still sending every few ms, no Reconnect/Remove had been issued and no gap between consecutive events on an open stream exceeded %v so far (receive timeout %v): a receive timeout was acted upon for a stream that never stayed silent", h.idx, ts.deliv, ts.maxOpenGap, 2*ts.judgeGap))
+			}
 		}
 		ts.state = "idle"
 		ts.lastEnd, ts.haveEnd = ev.At, true
@@ -215,6 +250,38 @@ func (s *server) Subscribe(stream gpb.GNMI_SubscribeServer) error {
 			runtime.Gosched()
 		}
 	}
+	if strings.HasPrefix(sess.Outcome, "healthy") {
+		ts.mu.Lock()
+		h := &hsess{idx: idx, actsAtOpen: ts.driverActs}
+		ts.healthy[sid] = h
+		ts.mu.Unlock()
+		gap := time.Duration(3+idx%5*3) * time.Millisecond
+		until := time.Now().Add(healthyFor)
+		for i := len(sess.Msgs); time.Now().Before(until) && i < 990; i++ {
+			id := int64(idx)*1000 + int64(i) + 1
+			resp := &gpb.SubscribeResponse{Response: &gpb.SubscribeResponse_Update{Update: &gpb.Notification{Timestamp: id}}}
+			if i%17 == 5 {
+				id = -id
+				resp = &gpb.SubscribeResponse{Response: &gpb.SubscribeResponse_SyncResponse{SyncResponse: true}}
+			}
+			ts.mu.Lock()
+			ts.sentBy[sid] = append(ts.sentBy[sid], id)
+			atomic.AddInt32(&ts.sentN, 1)
+			ts.cond.Broadcast()
+			ts.mu.Unlock()
+			if err := stream.Send(resp); err != nil {
+				return err
+			}
+			select {
+			case <-stream.Context().Done():
+				return stream.Context().Err()
+			case <-time.After(gap):
+			}
+		}
+		ts.mu.Lock()
+		h.finishing = true
+		ts.mu.Unlock()
+	}
 	defer func() {
 		ts.mu.Lock()
 		ts.ended[idx] = true
@@ -222,9 +289,9 @@ func (s *server) Subscribe(stream gpb.GNMI_SubscribeServer) error {
 		ts.mu.Unlock()
 	}()
 	switch sess.Outcome {
-	case "error":
+	case "error", "healthy-error":
 		return status.Error(codes.Unavailable, "scripted failure")
-	case "eof":
+	case "eof", "healthy-eof":
 		return nil
 	default:
 		<-stream.Context().Done()
@@ -296,13 +363,17 @@ func waitFor(ts *targetState, d time.Duration, pred func() bool) bool {
 	return true
 }
 
-func runTrial(r *vlib.Run, trial int, rng *rand.Rand) {
+func runTrial(r *vlib.Run, mode string, trial int, rng *rand.Rand) {
 	e := &env{r: r, targets: map[string]*targetState{}, lis: bufconn.Listen(1 << 20)}
 	nT := 1 + rng.Intn(4)
 	shareAddr := rng.Intn(2) == 0
 	recvTimeout := time.Duration(0)
 	if rng.Intn(2) == 0 {
 		recvTimeout = 50 * time.Millisecond
+	}
+	healthy := mode == "healthy"
+	if healthy && recvTimeout > 0 {
+		recvTimeout = healthyTimeout
 	}
 	var names []string
 	// Per-target receive_timeout override in the target's meta: none, enabling
@@ -312,8 +383,13 @@ func runTrial(r *vlib.Run, trial int, rng *rand.Rand) {
 	effective := make([]time.Duration, nT)
 	for i := 0; i < nT; i++ {
 		overrides[i] = []string{"", "50ms", "0s"}[rng.Intn(3)]
+		if healthy {
+			overrides[i] = []string{"", healthyTimeout.String(), healthyTimeout.String(), "0s"}[rng.Intn(4)]
+		}
 		effective[i] = recvTimeout
 		switch overrides[i] {
+		case healthyTimeout.String():
+			effective[i] = healthyTimeout
 		case "50ms":
 			effective[i] = 50 * time.Millisecond
 		case "0s":
@@ -323,9 +399,36 @@ func runTrial(r *vlib.Run, trial int, rng *rand.Rand) {
 	for i := 0; i < nT; i++ {
 		name := fmt.Sprintf("dev%d", i)
 		names = append(names, name)
-		ts := &targetState{name: name, state: "idle", ended: map[int]bool{}, sentBy: map[int64][]int64{}, resetAtOpen: map[int]int{}}
+		ts := &targetState{name: name, state: "idle", ended: map[int]bool{}, sentBy: map[int64][]int64{}, resetAtOpen: map[int]int{}, healthy: map[int64]*hsess{}}
 		ts.cond = sync.NewCond(&ts.mu)
 		ns := 3 + rng.Intn(6)
+		if healthy {
+			// Streams that fail quickly (never silent), each followed sooner or
+			// later by a stream on which the target keeps sending for 1.5 receive
+			// timeouts before it ends the stream itself.
+			ts.judgeGap = healthyTimeout / 2
+			ns = 0
+			for g := 1 + rng.Intn(2); g > 0; g-- {
+				for f := 1 + rng.Intn(3); f > 0; f-- {
+					s := session{Outcome: []string{"error", "eof"}[rng.Intn(2)], Action: "none"}
+					for m := rng.Intn(12); m > 0; m-- {
+						s.Msgs = append(s.Msgs, 'u')
+					}
+					if rng.Intn(4) == 0 {
+						s.Refusals = 1
+					}
+					ts.script = append(ts.script, s)
+				}
+				s := session{Outcome: []string{"healthy-error", "healthy-eof"}[rng.Intn(2)], Action: "none"}
+				for m := rng.Intn(4); m > 0; m-- {
+					s.Msgs = append(s.Msgs, 'u')
+				}
+				if rng.Intn(5) == 0 {
+					s.Action, s.ActionAt = "reconnect", len(s.Msgs)+5+rng.Intn(30)
+				}
+				ts.script = append(ts.script, s)
+			}
+		}
 		for j := 0; j < ns; j++ {
 			var s session
 			k := rng.Intn(21)
@@ -422,7 +525,7 @@ func runTrial(r *vlib.Run, trial int, rng *rand.Rand) {
 	// Callbacks are user code and may be slow: in a third of the trials Reset
 	// (and rarely Update) take a while, which stretches the time Remove holds
 	// the manager's lock and opens windows for the other targets' timers.
-	slowCB := rng.Intn(3) == 0
+	slowCB := rng.Intn(3) == 0 && !healthy
 	var cbMu sync.Mutex
 	cbRng := rand.New(rand.NewSource(rng.Int63()))
 	maybeSlow := func(kind string) {
@@ -489,7 +592,7 @@ func runTrial(r *vlib.Run, trial int, rng *rand.Rand) {
 				n := runtime.Stack(buf, true)
 				dump := string(buf[:n])
 				if strings.Contains(dump, "manager.(*Manager)."+what) {
-					r.Violation("script", trial, strings.ToLower(what)+"-never-returns", fmt.Sprintf("%s did not return within %v; the goroutine dump shows it inside the manager", what, grace), map[string]interface{}{"goroutines": dump})
+					r.Violation(mode, trial, strings.ToLower(what)+"-never-returns", fmt.Sprintf("%s did not return within %v; the goroutine dump shows it inside the manager", what, grace), map[string]interface{}{"goroutines": dump})
 				} else {
 					r.Inconclusive(what + " did not return within the grace period and the dump does not attribute it")
 				}
@@ -506,6 +609,7 @@ func runTrial(r *vlib.Run, trial int, rng *rand.Rand) {
 		if overrides[i] != "" {
 			tgt.Meta = map[string]string{"receive_timeout": overrides[i]}
 		}
+		act := func() { ts.mu.Lock(); ts.driverActs++; ts.mu.Unlock() }
 		settle := func(what string) {
 			// After Remove returned no callback may follow; keep poking Reconnect.
 			ts.mu.Lock()
@@ -513,7 +617,7 @@ func runTrial(r *vlib.Run, trial int, rng *rand.Rand) {
 			ts.mu.Unlock()
 			for k := 0; k < 4; k++ {
 				time.Sleep(15 * time.Millisecond)
-				if _, ok := callBounded("Reconnect", func() error { return m.Reconnect(name) }); !ok {
+				if _, ok := callBounded("Reconnect", func() error { act(); return m.Reconnect(name) }); !ok {
 					return
 				}
 			}
@@ -542,7 +646,7 @@ func runTrial(r *vlib.Run, trial int, rng *rand.Rand) {
 		}
 		hung := false
 		remove := func(what string) {
-			err, returned := callBounded("Remove", func() error { return m.Remove(name) })
+			err, returned := callBounded("Remove", func() error { act(); return m.Remove(name) })
 			if !returned {
 				hung = true
 				return
@@ -563,7 +667,7 @@ func runTrial(r *vlib.Run, trial int, rng *rand.Rand) {
 			res := make(chan error, 2)
 			for k := 0; k < 2; k++ {
 				go func() {
-					err, returned := callBounded("Remove", func() error { return m.Remove(name) })
+					err, returned := callBounded("Remove", func() error { act(); return m.Remove(name) })
 					if !returned {
 						err = errors.New("Remove never returned")
 					}
@@ -625,7 +729,7 @@ func runTrial(r *vlib.Run, trial int, rng *rand.Rand) {
 				case "reconnect", "remove", "double-remove":
 					waitFor(ts, grace, func() bool { return ts.opened > j+1 || ts.ended[j] || int(atomic.LoadInt32(&ts.sentN)) >= s.ActionAt })
 					if s.Action == "reconnect" {
-						if _, ok := callBounded("Reconnect", func() error { return m.Reconnect(name) }); !ok {
+						if _, ok := callBounded("Reconnect", func() error { act(); return m.Reconnect(name) }); !ok {
 							return
 						}
 						r.Count("forced_reconnects", 1)
@@ -654,17 +758,26 @@ func runTrial(r *vlib.Run, trial int, rng *rand.Rand) {
 			}
 			// All scripted sessions opened; let the last one end, then remove.
 			last := len(ts.script) - 1
-			waitFor(ts, 2*time.Second, func() bool { return ts.ended[last] || ts.opened > last+1 })
+			lastWait := 2 * time.Second
+			if healthy {
+				lastWait = 5 * time.Second
+			}
+			waitFor(ts, lastWait, func() bool {
+				if healthy { // let the Reset of the last stream be judged before the driver acts
+					return (ts.ended[last] && ts.state == "idle" && ts.resetFor > ts.resetAtOpen[last]) || ts.opened > last+1
+				}
+				return ts.ended[last] || ts.opened > last+1
+			})
 			remove("final")
 		}()
 	}
 	wg.Wait()
 	// Unknown names.
 	if err, returned := callBounded("Remove", func() error { return m.Remove("nobody") }); returned && err == nil {
-		r.Violation("script", trial, "remove-unknown-accepted", "Remove of an unknown target returned nil", nil)
+		r.Violation(mode, trial, "remove-unknown-accepted", "Remove of an unknown target returned nil", nil)
 	}
 	if err, returned := callBounded("Reconnect", func() error { return m.Reconnect("nobody") }); returned && err == nil {
-		r.Violation("script", trial, "reconnect-unknown-accepted", "Reconnect of an unknown target returned nil", nil)
+		r.Violation(mode, trial, "reconnect-unknown-accepted", "Reconnect of an unknown target returned nil", nil)
 	}
 	r.Eval(1)
 	select {
@@ -673,7 +786,7 @@ func runTrial(r *vlib.Run, trial int, rng *rand.Rand) {
 		n := runtime.Stack(buf, true)
 		dump := string(buf[:n])
 		if strings.Contains(dump, "manager.(*Manager).retryMonitor") || !strings.Contains(dump, "manager.(*Manager)") {
-			r.Violation("script", trial, "retry-stopped", why, map[string]interface{}{"goroutines": dump})
+			r.Violation(mode, trial, "retry-stopped", why, map[string]interface{}{"goroutines": dump})
 		} else {
 			r.Inconclusive("a scripted session was not opened within the grace period and the state is not attributable")
 		}
@@ -685,7 +798,7 @@ func runTrial(r *vlib.Run, trial int, rng *rand.Rand) {
 		ts.mu.Lock()
 		for i, v := range ts.viol {
 			if i < 3 {
-				r.Violation("script", trial, ts.violSig[i], v, map[string]interface{}{"target": name, "script": describe(ts.script), "trace": kinds(ts.events), "receive_timeout_default": recvTimeout.String(), "receive_timeout_overrides": overrides, "shared_address": shareAddr})
+				r.Violation(mode, trial, ts.violSig[i], v, map[string]interface{}{"target": name, "script": describe(ts.script), "trace": kinds(ts.events), "receive_timeout_default": recvTimeout.String(), "receive_timeout_overrides": overrides, "shared_address": shareAddr})
 			}
 		}
 		sig += fmt.Sprintf("%s:%s|", name, strings.Join(kinds(ts.events), ","))
@@ -723,19 +836,32 @@ func body(r *vlib.Run) {
 	manager.RetryBaseDelay = baseDelay
 	manager.RetryMaxDelay = maxDelay
 	r.ForTrials("script", r.N(240, 5000), func(trial int, rng *rand.Rand) {
-		runTrial(r, trial, rng)
+		runTrial(r, "script", trial, rng)
+	})
+	// Streams that never stay silent must not be ended by the manager: each
+	// trial takes about a second of wall time (1.5 receive timeouts per healthy
+	// stream), so there are fewer of them.
+	r.ForTrials("healthy", r.N(48, 640), func(trial int, rng *rand.Rand) {
+		runTrial(r, "healthy", trial, rng)
 	})
 }
 
 func main() {
 	vlib.Main(&vlib.Spec{
 		ID:   "C13",
-		Rule: "Each trial: the real manager.Manager over the real connection.Manager with a bufconn dialer; 1-4 targets (sharing one address or not), 3-8 scripted sessions each (0-20 numbered update/sync messages, then error / EOF / block), scripted dial refusals at the wrapper and delayed dial failures inside the connection manager (so that targets sharing an address join a failing attempt), a manager-wide receive timeout of 0 or 50 ms combined with per-target receive_timeout overrides (none / 50ms / 0s), forced Reconnect, Remove+re-Add, two overlapping Removes with an immediate re-Add, at seeded message indexes and during backoff, duplicate Add, unknown Remove/Reconnect; in a third of the trials the Reset/Update callbacks are slow (user code), and every Add/Remove/Reconnect call is bounded (a call that never returns is a violation when the dump shows it inside the manager). Every callback, connection attempt and stream opening (first SendMsg succeeded, via a client stream interceptor) feeds an online per-target state machine. A trial is distinct non-trivial by the hash of its complete per-target event-kind traces.",
+		Rule: "Each trial: the real manager.Manager over the real connection.Manager with a bufconn dialer; 1-4 targets (sharing one address or not), 3-8 scripted sessions each (0-20 numbered update/sync messages, then error / EOF / block), scripted dial refusals at the wrapper and delayed dial failures inside the connection manager (so that targets sharing an address join a failing attempt), a manager-wide receive timeout of 0 or 50 ms combined with per-target receive_timeout overrides (none / 50ms / 0s), forced Reconnect, Remove+re-Add, two overlapping Removes with an immediate re-Add, at seeded message indexes and during backoff, duplicate Add, unknown Remove/Reconnect; in a third of the trials the Reset/Update callbacks are slow (user code), and every Add/Remove/Reconnect call is bounded (a call that never returns is a violation when the dump shows it inside the manager). Every callback, connection attempt and stream opening (first SendMsg succeeded, via a client stream interceptor) feeds an online per-target state machine. A trial is distinct non-trivial by the hash of its complete per-target event-kind traces. Mode healthy (receive timeout 300 ms, manager-wide or by override): every target plays 1-3 streams that fail at once (0-11 messages then error/EOF, never silent) followed by a stream on which the target sends every 3-15 ms for 450 ms before ending it itself, once or twice over; such a stream may be followed by a Reset only after the target ended it or the driver issued Reconnect/Remove (a receive timeout may only be acted upon for a stream that stayed silent).",
 		Assumptions: []string{
 			"RetryBaseDelay/RetryMaxDelay are set to 20/40 ms; liveness is restated as bounded progress: a scripted session not opened within 40 s (1000 x RetryMaxDelay) while the target is managed is a violation only when the goroutine dump attributes it",
 			"the backoff clause is one-sided: gap between the end of a failed attempt and the next attempt >= 0.5 x RetryBaseDelay (load only lengthens gaps)",
 			"silence after Remove is observed for a 60 ms settling window during which Reconnect keeps being called; later callbacks would be missed (never a false alarm)",
 			"spurious reconnects (receive timeout under load) are allowed by the statement and tolerated: a session may end early, deliveries must still be an in-order prefix",
+			"mode healthy judges a torn-down stream only while no gap between consecutive events of that target on an open stream (opening, Connect, deliveries, Reset; taken at callback entry, which over-estimates the time a receive timer was armed) has reached half the receive timeout in the whole trial so far; otherwise the stream is counted as unjudged (load), never as a violation",
+		},
+		PostMerge: func(tier string, c map[string]int64) []string {
+			if c["healthy_sessions_judged_ran_to_their_end"] == 0 {
+				return []string{"oracle branch never exercised: healthy_sessions_judged_ran_to_their_end"}
+			}
+			return nil
 		},
 		QuickShards: 8, ThoroughShards: 16,
 		MinDistinctQuick: 100, MinDistinctThorough: 2000,
